@@ -11,7 +11,7 @@ Case grammar (one line):   <N>[n]|<step>;<step>;...
                                               last clause = generated name; flags bit 0 = ADDTOINDEX, bit 1 = QUIET
          | io:<relpattern>,..:<b>,<b>,...    PR_COMMAND_INSERTORDEREDDATA, parent patterns (PR_NAME_KEYS) of equal depth, one child per <b>
          | ro:<relpattern>,..:<b>,..         PR_COMMAND_REORDERDATA, one field per (distinct) pattern, paired with the <b> list
-         | rm:<relpattern>                   PR_COMMAND_REMOVEDATA
+         | rm:<relpattern>,..                PR_COMMAND_REMOVEDATA, keys (distinct) of equal depth
          | su:<abspattern> | sq:<abspattern> subscribe; sq = quiet subscription + GETDATA of the same pattern
          | un:<abspattern> | gd:<abspattern> unsubscribe; PR_COMMAND_GETDATA
          | ua                                unsubscribe from everything (REMOVEPARAMETERS "SUBSCRIBE:*"; alone in its step)
@@ -91,6 +91,10 @@ def gen_msg_cmd(rng, n, allow_sub=True):
             ps = distinct([one() for _ in range(rng.choice([2, 2, 3]))])
             return "ro:%s:%s" % (",".join(ps), ",".join(rng.choice(BEFORE + ["x", "I0"]) for _ in ps))
         return "ro:%s:%s" % (one(), rng.choice(BEFORE + ["x", "I0"]))
+    if r < 0.60:
+        ks = rng.choice([["a/x", "a/y"], ["a/y", "a/x", "a/I0"], ["a/*", "a/x"], ["a/I1", "a/*"], ["a/I0", "b/I0", "*/x"], ["a", "b"], ["*", "a"],
+                         ["a/I0", "a/I2", "a/I1"], ["b/*", "a/I0"], ["*/I0", "*/I1"], ["a/x/*", "a/I0/*"]])
+        return "rm:%s" % ",".join(ks)
     if r < 0.68:
         return "rm:%s" % rng.choice(["a/" + rng.choice(KIDS), "a/" + rng.choice(KIDS), "a", "b", "a/*", "*", "*/x", par, "a/x/" + rng.choice(KIDS)])
     if r < 0.80:
@@ -197,6 +201,9 @@ DIRECTED = [
     # several fields / keys in one Message; trailing-slash SETDATA (generated names), also next to explicit I-names; QUIET SETDATA
     "2|1>su:*/*;0>sd:a,b,a/x:0;0>sd:a/,a/I5,b/:1;0>sd:a/,c/k/:1;0>sd:a/:3;0>sd:a/z:2;0>io:a,b:-,I0;0>io:*,a:x;0>ro:a/I0,a/*,b/I0:-,I1,!;1>gd:*/*",
     "1|0>su:*/a;0>sd:a/I1:1;0>sd:a/:1;0>sd:a/:1;0>sd:a/I3:0;0>sd:a/:1;0>sd:a/:1;0>sd:c/k/:1;0>gd:*/c/k",
+    # several keys in one REMOVEDATA: the order of the removals (and so the logged positions) follows the multi-pattern traversal
+    "2|1>su:*/a;0>sd:a:0;0>io:a:-,-,-,-,-;0>sd:a/x:1;0>rm:a/I3,a/I1;0>rm:a/*,a/I0;0>io:a:-,-,-;0>rm:a/x,a/I6,a/I5;1>gd:*/a",
+    "2|1>su:*/*;0>sd:a:0;0>sd:b:0;0>io:a,b:-,-,-;0>rm:a/I0,b/I2,*/I1;0>rm:b,a",
     # wildcard parents
     "2|1>su:*/*;0>sd:a:0;0>sd:b:0;0>io:*:-,-;0>io:*:I0;0>ro:*/I1:I0;0>rm:*/I0;1>gd:*/*",
     # quiet removal: the tree and later streams still agree with the model; only the parent's watchers go stale
@@ -225,7 +232,7 @@ class CHECK(vlib.Check):
                 "reflector/StorageReflectSession.cpp: SetDataNode (ADDTOINDEX, remove-from-index), InsertOrderedData, ReorderDataCallback, "
                 "DoRemoveData, DoGetData/GetDataCallback (clear+inserts snapshot, own-subtree short cut on _indexingPresent), SUBSCRIBE / "
                 "REMOVEPARAMETERS, NodeIndexChanged + PushSubscriptionMessages after every (sub-)Message, PR_COMMAND_BATCH, CloneDataNodeSubtree. "
-                "Wildcard patterns with clauses name or *; several fields per SETDATA/REORDERDATA, several equal-depth keys per INSERTORDEREDDATA, one key per REMOVEDATA. "
+                "Wildcard patterns with clauses name or *; several fields per SETDATA/REORDERDATA, several equal-depth keys per INSERTORDEREDDATA / REMOVEDATA (multi-pattern traversal order: Index.trav). "
                 "PR_NAME_REMOVE_QUIETLY: remove_child_quiet + quiet_frame (outside the histories of replay_eq; corresponded). "
                 "Not modelled: query filters, quiet subscriptions without GETDATA, payloads, DATAITEMS, "
                 "Message boundaries of the update stream (only per-client per-node order), node/child count limits, DataNode::InsertIndexEntryAt called against its documented preconditions.")
